@@ -266,3 +266,21 @@ def translucent(draw, fg_rgb):
         a = draw(st.sampled_from([0, 1]))
     seq = (r, g, b, a)
     return enc(seq if kind == "tuple4" else list(seq)), kind, (F(r), F(g), F(b)), F(a)
+
+
+@st.composite
+def translucent_near(draw, text_rgb, bg_rgb):
+    """Translucent spelling whose composite over bg_rgb is (about) text_rgb, so constructed
+    near-threshold pairs stay near their threshold. Returns (arg_encoded, kind)."""
+    a_txt = draw(st.sampled_from(["0.5", "0.6", "0.75", "0.8", "0.9", "0.95", "0.99", "1", "1.0"]))
+    a = float(a_txt)
+    fg = tuple(int(min(255, max(0, round(bg_rgb[k] + (text_rgb[k] - bg_rgb[k]) / a)))) for k in range(3))
+    kind = draw(st.sampled_from(["rgba", "hsla", "tuple4", "list4"]))
+    r, g, b = fg
+    if kind == "rgba":
+        return f"rgba({r}, {g}, {b}, {a_txt})", kind
+    if kind == "hsla":
+        h, s, l = _hsl_string(fg, 3)
+        return f"hsla({h}, {s}%, {l}%, {a_txt})", kind
+    seq = (r, g, b, a)
+    return enc(seq if kind == "tuple4" else list(seq)), kind
